@@ -635,14 +635,34 @@ fn t_reader_borrowed(rng: &mut Rng, stats: &mut Stats) {
 	stats.op("read-n:borrowed");
 	let mut kept: Vec<Borrowed> = vec![];
 	let mut errs = 0;
-	loop {
-		match reader.deserialize_next_borrowed::<Borrowed>() {
-			Ok(Some(b)) => kept.push(b),
-			Ok(None) => break,
-			Err(_) => {
-				errs += 1;
-				break;
+	if rng.bool() {
+		loop {
+			match reader.deserialize_next_borrowed::<Borrowed>() {
+				Ok(Some(b)) => kept.push(b),
+				Ok(None) => break,
+				Err(_) => {
+					errs += 1;
+					break;
+				}
 			}
+		}
+	} else {
+		// the iterator API; the iterator borrows the reader, the items borrow the input
+		stats.op("read-n:borrowed-iterator");
+		for item in reader.deserialize_borrowed::<Borrowed>() {
+			match item {
+				Ok(b) => kept.push(b),
+				Err(_) => {
+					errs += 1;
+					break;
+				}
+			}
+		}
+		// owned iterator over a second reader on the same input
+		let mut r2 = Reader::from_slice(&file).unwrap();
+		let owned: Vec<Owned> = r2.deserialize::<Owned>().filter_map(|r| r.ok()).collect();
+		if owned != vals {
+			mismatch!("owned iterator read {} values, wrote {}", owned.len(), vals.len());
 		}
 	}
 	stats.op("drop:reader-while-borrowed-values-live");
@@ -689,6 +709,11 @@ fn t_threads(rng: &mut Rng, stats: &mut Stats) {
 	let files: Vec<Vec<u8>> = vals.iter().map(|vs| make_file(&schema, &env, &ty, vs, codec, &mut rng.fork())).collect();
 	let worker = |schema: &Schema, ty: &Ty, vs: &[Val], exp: &[Vec<u8>], file: &[u8]| {
 		let env = Env::build(ty);
+		// Debug rendering walks the node graph (with a thread-local depth guard)
+		let dbg = format!("{schema:?}");
+		if dbg.is_empty() {
+			mismatch!("empty Debug rendering");
+		}
 		for (v, e) in vs.iter().zip(exp) {
 			let b = encode(schema, &env, ty, v, PresCfg::plain()).unwrap_or_else(|e| mismatch!("concurrent encode: {e}"));
 			if &b != e {
